@@ -283,6 +283,30 @@ def scalar_codecs(out):
 
 
 @extractor
+def coap_event_loop(out):
+    """C12 over CoAP: the record loop of EventResource.render_put - header format, header size used in the slices and in the
+    advance, the stop condition"""
+    t = parse("controller/coap/connection.py")
+    f = func(t, "render_put", cls="EventResource")
+    loops = [n for n in ast.walk(f) if isinstance(n, ast.While)]
+    if len(loops) != 1 or ast.unparse(loops[0].test) != "True":
+        raise Shape("render_put: one `while True` loop expected")
+    w = loops[0]
+    fmts = [c.args[0].value for c in ast.walk(w) if isinstance(c, ast.Call) and ast.unparse(c.func) == "struct.unpack" and isinstance(c.args[0], ast.Constant)]
+    unpacked = [ast.unparse(c.args[1]) for c in ast.walk(w) if isinstance(c, ast.Call) and ast.unparse(c.func) == "struct.unpack"]
+    bodies = [ast.unparse(n.value) for n in ast.walk(w) if isinstance(n, ast.Assign) and getattr(n.targets[0], "id", "") == "body"]
+    adv = [ast.unparse(n.value) for n in ast.walk(w) if isinstance(n, ast.AugAssign) and getattr(n.target, "id", "") == "offset" and isinstance(n.op, ast.Add)]
+    stops = [ast.unparse(n.test) for n in w.body if isinstance(n, ast.If) and any(isinstance(b, ast.Break) for b in n.body)]
+    inits = [ast.unparse(n.value) for n in f.body if isinstance(n, ast.Assign) and getattr(n.targets[0], "id", "") == "offset"]
+    if not (len(fmts) == 1 and len(unpacked) == 1 and len(bodies) == 1 and len(adv) == 1 and len(stops) == 1 and len(inits) == 1):
+        raise Shape("render_put: loop pieces")
+    # the last statement of the loop body is the stop test: every record is handed over BEFORE the loop can stop
+    if not (isinstance(w.body[-1], ast.If) and any(isinstance(b, ast.Break) for b in w.body[-1].body)):
+        raise Shape("render_put: the stop test is not the last statement of the loop")
+    out["CoapEvent"] = {"fmt": fmts[0], "unpacked": unpacked[0], "body": bodies[0], "advance": adv[0], "stop": stops[0], "init": inits[0]}
+
+
+@extractor
 def misc_numbers(out):
     """numeric literals and names at anchored AST shapes for C06 (CoAP resynchronisation window), C07 (framing header names),
     C14 (decimal context), C18 (state-number candidates), C19 (BLE advertisement layout)"""
@@ -1048,6 +1072,16 @@ def emit_scalars(out, files):
          "  [" + ",\n   ".join(f"({lean_str(a)}, {lean_str(b)}, {c}, {lean_str(d)}, {lean_str(e)})" for a, b, c, d, e in rows) + "]",
          "end HapVerif.Gen.Scalars"]
     files["Scalars.lean"] = "\n".join(L) + "\n"
+
+
+@emitter
+def emit_coap_event(out, files):
+    d = out["CoapEvent"]
+    L = ["/-! GENERATED by tools/translate.py from controller/coap/connection.py (EventResource.render_put) - do not edit. -/", "namespace HapVerif.Gen.CoapEvent"]
+    for k in ("fmt", "unpacked", "body", "advance", "stop", "init"):
+        L.append(f"def {k}Src : String := {lean_str(d[k])}")
+    L.append("end HapVerif.Gen.CoapEvent")
+    files["CoapEvent.lean"] = "\n".join(L) + "\n"
 
 
 @emitter
